@@ -65,6 +65,14 @@ var basePoint = [32]byte{9, 0, 0, 0, 0, 0, 0, 0, 0, 0, 0, 0, 0, 0, 0, 0, 0, 0, 0
 // will return an error.
 func ScalarMult(dst, in, base *[32]byte) {
 	xcurve.ScalarMult(dst, in, base)
+
+	// The result must be the canonical encoding of the u-coordinate.  The
+	// amd64 assembly of the underlying implementation leaves results
+	// smaller than 19 unreduced (it returns u + 2^255 - 19), so always
+	// reduce here.
+	var u curve25519.Bignum25519
+	curve25519.Expand(&u, dst[:])
+	curve25519.Contract(dst[:], &u)
 }
 
 // ScalarBaseMult sets dst to the product in*base where dst and base are
